@@ -351,6 +351,8 @@ func init() {
 			"every loader request canonical (scheme, absolute clean path, no fragment, no query on files), normalizeBase idempotent on canonical locations. non-trivial = spelling differs from the canonical text",
 		NumCases: c11NumCases,
 		Run:      c11Run,
+		// a process must live through several changes of working directory
+		ChunkSize: 24,
 		Floors: func(env *core.Env) []string {
 			return []string{"scheme.file", "scheme.http", "scheme.https", "rewrite.dot-segments", "rewrite.double-slash", "rewrite.upper-case-scheme", "rewrite.fragment", "rewrite.query",
 				"rewrite.file-one-slash", "rewrite.bare-absolute-path", "rewrite.relative-path", "entry.ExpandSpec", "entry.ExpandSchemaWithBasePath", "entry.ResolveRefWithBase"}
